@@ -9,7 +9,7 @@ SWEEP_NOTE = " Both tiers also run the exhaustive small-scope sweep of this fami
 COMMON_NOTE = (
     "Trusted base: the harness (scripted children, adversarial executor, event log, reference models in /verif/harness/src) and "
     "the generators' bounds (tuple arity <= 12, array lengths {0,1,2,3,4,5,8,13,257}, Vec lengths up to 257, scripts <= 8 steps, one "
-    "level of nesting). Holds only for the executions generated; a timed-out shard or crashed tool is inconclusive."
+    "level of nesting; deliberately not observed: use of a combinator after a panic unwound out of it, panicking destructors, stack depth). Holds only for the executions generated; a timed-out shard or crashed tool is inconclusive."
 )
 
 # id -> (technique, level text, design ref, engine)
@@ -40,7 +40,10 @@ CHECKS = {
 }
 
 checks = []
+EXTRA = {'C02': ' Workloads also vary what only inputs can show: Vec inputs with spare capacity, child types without drop glue, zero-sized outputs/items (engine Z), children whose destructor wakes a waker.', 'C03': ' Streams are additionally polled by the consumer after their final None (stale wakes in between); a quarter of the std shards run a build without debug assertions.', 'C11': " 'Mass' histories (11-18 members inserted in a burst, degenerate scripts) make ten and more members finish in one poll; an engine-T layer fires the members' wakers from other threads.", 'C12': " 'Mass' histories (11-18 members inserted in a burst, degenerate scripts) make ten and more members end in one poll; an engine-T layer fires the members' wakers from other threads.", 'C14': ' After the first Err no in-flight work future may be driven to completion, and the operation must not remain Pending at quiescence even if siblings never complete.', 'C15': ' Items taken OUT OF THE SOURCE are bounded by take(n) as well (an item pulled and thrown away is lost); non-fused sources, huge limits, zero-sized items.', 'C16': ' An engine-T layer checks the same invariant under wake-ups from other threads (announced / in-flight wake-call accounting).', 'C17': ' 4 % long runs (530-830 yields), one or two always-ready inputs, Vec merges of 24..129 inputs, and an engine-T layer (fairness under wake-ups from other threads).', 'C20': " An engine-T layer repeats this with the siblings' wakers fired from other threads.", 'C19': ' Flat wait_until streams also get non-fused inner streams (the consumer polls on after None and the wrapper must forward), and inner streams with exact size hints.'}
+
 for pid, (tech, text, ref) in CHECKS.items():
+    text += EXTRA.get(pid, "")
     if pid in ("C04", "C05", "C06", "C07", "C08", "C09", "C10"):
         text += SWEEP_NOTE
         tech += "; exhaustive small-scope schedule enumeration"
@@ -67,7 +70,7 @@ manifest = dict(
         add_only=True,
     ),
     engines=[
-        dict(name="fcv", path="harness/", serves_properties=list(CHECKS.keys()), kind_free_text="Rust harness crate: scripted children + adversarial executor + event log + reference models (engines A static shapes, B group histories, C concurrent-stream pipelines, T real threads), run natively, under Miri, ASan, valgrind and TSan by ./check; fcv dfs = exhaustive small-scope sweep, fcv allk = every-crash-point sweep"),
+        dict(name="fcv", path="harness/", serves_properties=list(CHECKS.keys()), kind_free_text="Rust harness crate: scripted children + adversarial executor + event log + reference models (engines A static shapes, B group histories, C concurrent-stream pipelines, T real threads, Z zero-sized types), run natively, under Miri, ASan, valgrind and TSan by ./check; fcv dfs = exhaustive small-scope sweep, fcv allk = every-crash-point sweep"),
     ],
     checks=checks,
     notes="Runtime monitoring only. ./check rebuilds the harness against /repo's working tree (content-hash keyed). Three genuine defects were repaired in /repo with 'fix:' commits (see known_findings.json and DESIGN.md section 8).",
